@@ -8,7 +8,6 @@ void xv_aprintf(char *buf, size_t capacity);
 #define ut_aprintf(buf, n, ...) xv_aprintf((buf), (n))
 #include "ctx_store.c"
 #include "item.c"
-#include "env/libc_fmt.h"
 #define XV_LOCKS_CS
 #include "env/locks_env.h"
 #include "contracts/locks.h"
